@@ -359,11 +359,38 @@ def _loop_variant(fn_node: ast.AST) -> set:
                             in_loop_assigns.append((names, n.value))
                 elif isinstance(n, (ast.For, ast.comprehension)) and n is not lp:
                     variant |= {x.id for x in ast.walk(n.target) if isinstance(x, ast.Name)}
+    # control dependence: a name assigned under an `if` / conditional expression inside the loop depends on the names of that test
+    ctrl: Dict[int, set] = {}
+
+    def walk_ctrl(stmts, tests: set) -> None:
+        for st in stmts:
+            if isinstance(st, ast.If):
+                t2 = tests | {x.id for x in ast.walk(st.test) if isinstance(x, ast.Name)}
+                walk_ctrl(st.body, t2)
+                walk_ctrl(st.orelse, t2)
+            elif isinstance(st, (ast.For, ast.While, ast.With, ast.Try)):
+                for f_ in ("body", "orelse", "finalbody"):
+                    walk_ctrl(getattr(st, f_, []) or [], tests)
+            elif isinstance(st, ast.Assign):
+                ctrl[id(st.value)] = set(tests)
+    for lp in loops:
+        walk_ctrl(lp.body + lp.orelse, set())
+    # a name with one defining assignment has that value whenever it is defined: the tests it sits under select *whether*, not *what*
+    n_defs: Dict[str, int] = {}
+    for a_ in walk_no_nested(fn_node):
+        if isinstance(a_, ast.Assign):
+            for t_ in a_.targets:
+                for x_ in ast.walk(t_):
+                    if isinstance(x_, ast.Name) and isinstance(x_.ctx, ast.Store):
+                        n_defs[x_.id] = n_defs.get(x_.id, 0) + 1
+    for names, val in in_loop_assigns:
+        if all(n_defs.get(nm_, 0) <= 1 for nm_ in names):
+            ctrl.pop(id(val), None)
     changed = True
     while changed:
         changed = False
         for names, val in in_loop_assigns:
-            used = {x.id for x in ast.walk(val) if isinstance(x, ast.Name)}
+            used = {x.id for x in ast.walk(val) if isinstance(x, ast.Name)} | ctrl.get(id(val), set())
             if (used & variant or used & set(names)) and not set(names) <= variant:
                 variant |= set(names)
                 changed = True
